@@ -5,8 +5,8 @@ pub use io::ErrorKind;
 pub type Result<T> = core::result::Result<T, Error>;
 #[verifier::external_body] pub struct FromBytesWithNulError { _p: u8 }
 #[verifier::external_body] pub struct FsCacheReq { _p: u8 }            // stands for `dyn FsCacheReqHandler`
-#[verifier::external_body] pub struct IoctlArg { _p: u8 }
-#[verifier::external_body] pub struct IoctlRes { _p: u8 }
+pub ghost struct IoctlArg { pub result: i32, pub data: Option<Seq<u8>> }     // value of an IoctlData
+pub type IoctlRes = IoctlArg;
 pub mod virtio_fs { pub use super::RemovemappingOne; }
 #[verifier::external_body] pub fn fmt_opaque() -> String { unimplemented!() }
 
@@ -144,5 +144,5 @@ pub open spec fn zw_appended<W: ZeroCopyWriter>(o: W, n: W, r: io::Result<usize>
         Ok(c) => n.zw_buf().len() == o.zw_buf().len() + c && n.zw_buf().subrange(0, o.zw_buf().len() as int) == o.zw_buf(),
         Err(_) => true })
 }
-pub uninterp spec fn ioctl_arg(d: IoctlData<'_>) -> IoctlArg;
-pub uninterp spec fn ioctl_res(r: io::Result<IoctlData<'_>>) -> io::Result<IoctlRes>;
+pub open spec fn ioctl_arg(d: IoctlData<'_>) -> IoctlArg { IoctlArg { result: d.result, data: (match d.data { Some(s) => Some(s@), None => None::<Seq<u8>> }) } }
+pub open spec fn ioctl_res(r: io::Result<IoctlData<'_>>) -> io::Result<IoctlRes> { match r { Ok(d) => Ok(ioctl_arg(d)), Err(e) => Err(e) } }
